@@ -555,22 +555,41 @@ def l5(facts, tier):
 _LOCK_TAKE = ("RwLock::read", "RwLock::write", "RwLock::try_read", "RwLock::try_write", "Mutex::lock", "Mutex::try_lock")
 
 
+_L_CRATE = ["savefile_abi"]
+
+
 def _static_in(n):
     for y in walk(n):
-        if y.get("k") == "Static" and str(y.get("id", "")).startswith("savefile_abi::"):
+        if y.get("k") == "Static" and str(y.get("id", "")).startswith(_L_CRATE[0] + "::"):
             return y["id"]
     return None
 
 
-@rule("L6", ["C16"], floor=0, doc="a cached value and the key it is valid for are read in one critical section: when a function compares a parameter with "
+@rule("L6", ["C16"], floor=3, doc="a cached value and the key it is valid for are read in one critical section: when a function compares a parameter with "
       "the content of an atomic static and, on a match, takes data out of a DIFFERENT lock-protected static, the parameter is compared "
       "again with data stored under that lock; otherwise a writer that updates the pair between the two reads makes the function return "
       "the value that belongs to another key")
 def l6(facts, tier):
+    yield from _l6_scan(facts, "savefile_abi")
+    # positive examples (the expected count on the library is zero): a split key that is not re-checked must be reported, one that is
+    # re-checked under the lock must pass
+    got = {}
+    for o in _l6_scan(facts, "sfcorpus", only="selftest_locks"):
+        got[o["key"].split("selftest_locks::")[-1].split(":")[0]] = o
+    for name, want in (("lookup_split_key", "violation"), ("lookup_rechecked", "pass")):
+        o = got.get(name)
+        ok = o is not None and o["status"] == want
+        yield ob(["C16"], "L6", f"selftest:{name}", "pass" if ok else "violation", o["where"] if o else "",
+                 f"positive example {name} is classified `{want}`" if ok else
+                 f"rule L6 no longer classifies its built-in example sfcorpus::selftest_locks::{name} as `{want}` (got {o['status'] if o else 'nothing'}): the rule is blind")
+
+
+def _l6_scan(facts, crate, only=None):
     from ..flow import parent_map
+    _L_CRATE[0] = crate
     n = 0
     for fid, f in sorted(facts.fns.items()):
-        if f["crate"] != "savefile_abi" or not f.get("body") or f.get("kind") == "Closure":
+        if f["crate"] != crate or not f.get("body") or f.get("kind") == "Closure" or (only is not None and only not in fid):
             continue
         params = {p["pat"]["v"] for p in f.get("params", []) if (p.get("pat") or {}).get("k") == "Bind"}
         for x in walk(f["body"]):
@@ -601,7 +620,8 @@ def l6(facts, tier):
                          f"of {b_static} without comparing it again under that lock: a thread that replaces the cached pair between the two reads "
                          f"makes this call return the value cached for a different {sorted(cmp_params)[0].split('#')[0]} (a connection built from another "
                          f"implementation's template)")
-    if n == 0:
+    _L_CRATE[0] = "savefile_abi"
+    if n == 0 and only is None:
         yield ob(["C16"], "L6", "no-split-key", "pass", "", "no function matches a parameter against an atomic static and then takes data from another "
                  "lock-protected static", nontrivial=False)
 
